@@ -40,6 +40,10 @@ func init() {
 			}
 			return term.False
 		}
+		I[vrtPath+".PickStr"] = func(e *Engine, st *State, th *Thread, fn *ssa.Function, a []Value, in *ssa.Call) Value {
+			c := e.symVar(constStr(a[0], "label"), term.Bool)
+			return term.Ite(c, a[2].(*term.Term), a[1].(*term.Term))
+		}
 		I["bytes.Equal"] = func(e *Engine, st *State, th *Thread, fn *ssa.Function, a []Value, in *ssa.Call) Value {
 			x, y := e.pick(st, a[0]).(Slice), e.pick(st, a[1]).(Slice)
 			if x.Len != y.Len {
